@@ -98,12 +98,16 @@ CHECKS = {
          "run by the acceptor: a reference RFC 6762 cache fed with the provider's multicasts must equal the served records at the end, "
          "be empty after destruction, and no change of name/type/target may happen without a goodbye (codes 40-42).",
          "DESIGN.md section 4 (C12/C13)", "Rocq proof (partial) + reference-listener acceptor + differential correspondence under virtual time"),
- "C14": ("Theorems (Properties_C14.v, partial, handler level): updateService emits serviceAdded iff the instance is not in the map of added "
-         "services, serviceUpdated only when the stored description differs under Service::operator== (tied to service.cpp: every "
-         "member is compared), only for instances of the browser's own type unless it enumerates; a removal names the stored "
-         "description. Over whole histories (1..3 browsers, private/shared caches, both modes) the life-cycle automaton and the type "
-         "clause are decided per run by the acceptor mon_browser (codes 50-55) on the real Browser's traces under virtual time.",
-         "DESIGN.md section 4 (C14/C15/C19)", "Rocq proof (handler level) + life-cycle acceptor on implementation traces + differential correspondence (QSet order canonicalised)"),
+ "C14": ("Theorems (Properties_C14.v, over BrowserInv.v): C14_life_cycles - in any world (any number of browsers of any types, private or "
+         "shared caches, any cache content) a browser that has nothing added, followed through ANY sequence of handler invocations "
+         "(messages, cache and browser timers, API calls), emits notifications that form well-formed life cycles per instance: added only "
+         "when not added, updated only when added and different (Service::operator==, tied to service.cpp: every member is compared) from "
+         "the last report, removed only when added and naming the last report; every report is of the browser's own type unless it "
+         "enumerates; C14_life_cycles_kernel - the same for the signal outputs of every script of the executable model under the "
+         "virtual-time kernel (generic SimProofs.run_covers). Handler-level characterisations of updateService / onRecordExpired. Tie: the "
+         "real Browser's traces under virtual time equal the model's (QSet order canonicalised) and are judged by the extracted acceptor "
+         "mon_browser (codes 50-55) over histories with 1..3 browsers, private/shared caches, both modes.",
+         "DESIGN.md section 4 (C14/C15/C19)", "Rocq invariant proof over all handler sequences and kernel runs of the browser model + life-cycle acceptor on implementation traces + differential correspondence (QSet order canonicalised)"),
  "C15": ("Theorem (Properties_C15.v, partial, handler level): every reported description is assembled from the cache content seen - a PTR "
          "of the type exists, hostname/port from the first SRV, attributes = merge of all TXT - which by C05/C06 is exactly the valid "
          "records. Backing and freshness over whole histories are decided per run by mon_browser with a reference RFC 6762 cache "
